@@ -610,6 +610,9 @@ class Script(object):
         for cmd in self.commands:
             if isinstance(cmd, int):
                 raw += bytes([cmd])
+            elif isinstance(cmd, list):
+                # nested script (redeemscript parsed into commands): a data push of the serialized sub-script
+                raw += data_pack(Script(cmd).serialize())
             else:
                 raw += data_pack(bytes(cmd))
         self._raw = raw
